@@ -13,6 +13,10 @@ SYS_NOTE = ('Trusted base: git 2.39, the in-tree mock git host (bert_e/git_host/
 F_NOTE = ('Trusted base: TLC evaluating the oracle module, the ~50-line renderer from token structures to real '
           'inputs, stubs named in the evidence file. The quantified domain of the tier is enumerated completely.')
 
+C16_NOTE = ('The specification contributes the plan and the design claim, not the verdict: the decisive oracle is a '
+            'sentinel search. Trusted base: the git wrapper prints the URL the way git does; mock git host for the API '
+            'side; scripted HTTP session for GitHub.')
+
 CHECKS = {
  'C01': ('model_checking', 'S+Mon', 'Design level: TLC checks C01_Incl on every reachable state of spec/BertE.tla (three queue modes, stabilization cascade) within the level bound. Code level: every real job of the shared exploration (spec behaviours replayed with projection comparison, scripted families over 1-4 branch cascades incl. stabilization, hotfix and major-only, fault variants) is judged by TraceMon clause C01.incl after every single evaluation.', 'TLA+ system model (TLC) + replay on real code + TLA+ trace monitors'),
  'C02': ('fault_enumeration', 'S+Mon', 'For every job of the fault base histories: crash before every remote operation, rejection of every ref the job pushes, then recovery by a fresh instance (queue reset when it reports the queues out of order); TraceMon clauses C02.allornone / C02.incl on EVERY observation line (one per remote operation) and C02.recovery (destination trees equal to the uninterrupted run). Design level: C02_AllOrNone on BertE.tla.', 'fault enumeration on real code judged by TLA+ trace monitors; TLA+ model with Crash/RejectRef'),
@@ -29,14 +33,13 @@ CHECKS = {
  'C13': ('model_checking', 'T', 'Design level: spec/Server.tla (put_job / process_task at source-line granularity, ghost pending) exhaustively model-checked by TLC: 2 hooks with liveness, 3 hooks x 2 events x 2 keys x 4 outcomes for safety. Code level: the real BertE.put_job / process_task run under a deterministic line scheduler (sys.settrace); every schedule with <= 2 (quick) / 3 (thorough) preemptions of several scenarios is executed and validated by TLC against Server\'s transition rules and C13\'s properties (spec/TraceServer.tla).', 'TLA+ model (TLC) + systematic schedule exploration of the real methods validated by a TLA+ trace spec'),
  'C14': ('model_checking', 'F', 'The full request matrix of spec/Api.tla (API paths x methods x sessions x parameter classes, forms, both webhook routes x credentials x repository identity x event types) is sent to the real Flask application through the test client; registered routes are compared with the specified table.', 'TLA+ table enumerated by TLC, differential against the real Flask app'),
  'C15': ('model_checking', 'S+Mon', 'TraceMon clauses C15.* (Lossy computed in TLA+ from the commit DAG and the source history) on the reset family: random orders of amend / rebase / push / rewind / destination move / manual commits, then reset or force_reset, with bystander PRs.', 'TLA+ trace monitors on real executions'),
+ 'C16': ('fault_enumeration', 'X', 'Fault plan from spec/Secrets.tla: (job kind x git command index x fail|hang x DEBUG|INFO x password class incl. URL-special, shell-special, non-ASCII) over the measured command list of 7 job kinds; each executed cell runs the real job on a World whose BertE carries the production URL/mask objects, with a git wrapper that fails or hangs at command k while printing the remote URL; all sinks captured (log records with exception chains, stdout/stderr, job status/details/JSON, comments) and searched for every form of the secret; 6 scripted GitHub password / App flows incl. failing responses. Quick executes a stratified seeded sample of the plan, thorough about a third of all cells.', 'TLA+ fault plan + fault injection on real jobs + sentinel search in captured sinks'),
  'C17': ('model_checking', 'F+T', '(a) every ordered list of <= 3 (quick) / 4 (thorough) workflow runs over the stated alphabet: spec/BuildStatus.tla decides whether the aggregate may be SUCCESSFUL, the real AggregatedWorkflowRuns.state is computed for each. (b) spec/StatusCache.tla model-checked (cache sizes 1, 2); every sequence of <= 3/4 host updates / webhook events / polls plus seeded walks executed on the real Bitbucket client (scripted session), the real webhook route and the real bounded cache, judged by spec/TraceCache.tla.', 'TLA+ oracle + TLA+ cache model (TLC) + trace validation of real sequences'),
  'C18': ('model_checking', 'F', 'Exhaustive over the bounded grammar of spec/Names.tla (22k names) + round trips through the real name builders.', 'TLA+ grammar enumerated by TLC, differential against branch_factory'),
  'C19': ('model_checking', 'S+Mon', 'TraceMon clauses C19.* after every evaluation of the events family (PR / child PR / commit events in random order and multiplicity, both always_create_* settings, decline or merge) and of all other histories; design level C19_Children.', 'TLA+ trace monitors on real executions + model'),
  'C20': ('model_checking', 'S+Mon', 'TraceMon clauses C20.* on the admin family (create / delete branch over names older, between, newer, existing, archived, with branch_from, 0-2 queued PRs incl. hotfix queue, queues on/off; rebuild / delete / force-merge queues).', 'TLA+ trace monitors on real executions'),
 }
-NOT_YET = {
- 'C16': 'check not built yet (Secrets fault plan)',
-}
+NOT_YET = {}
 
 
 def main():
@@ -51,9 +54,9 @@ def main():
             thorough_cmd='bin/check %s --tier thorough' % p,
             evidence_file='/verif/evidence/%s.json' % p,
             replay_cmd_template='bin/check %s --replay {path}' % p,
-            engine='sys' if 'S' in group else ('threads' if group == 'T' else 'oracle'),
+            engine='sys' if 'S' in group else ('threads' if group == 'T' else 'secrets' if group == 'X' else 'oracle'),
             level_claimed=dict(category=level, text=text, design_ref='DESIGN.md section 7 (%s) and section 11' % p),
-            level_note=SYS_NOTE if 'S' in group else F_NOTE, technique=tech))
+            level_note=SYS_NOTE if 'S' in group else (C16_NOTE if group == 'X' else F_NOTE), technique=tech))
     na = [dict(property_id=p, reason=NOT_YET.get(p, 'check not built yet')) for p in props
           if p not in CHECKS or not enabled(p)]
     m = dict(
@@ -73,6 +76,9 @@ def main():
                       serves_properties=[p for p in props if p in CHECKS and CHECKS[p][1].startswith('F') and enabled(p)],
                       kind_free_text='pure decision functions: TLA+ oracle enumerated/evaluated by TLC over the whole '
                                      'quantified domain, every case executed on the real function'),
+                 dict(name='secrets', path='harness/checks/c16.py + spec/Secrets.tla', serves_properties=['C16'],
+                      kind_free_text='fault enumeration from a TLA+ plan; verdict by sentinel search (TLA+ cannot '
+                                     'express substring containment, DESIGN.md section 8)'),
                  dict(name='threads', path='harness/linesched.py + spec/Server.tla + spec/TraceServer.tla',
                       serves_properties=['C13'],
                       kind_free_text='line-granularity scheduler over the real dispatcher methods; TLA+ model + trace spec')],
